@@ -109,7 +109,7 @@ func despace(prog string) (string, int) {
 		if lit == "" {
 			return ""
 		}
-		return "LIT " + lit + "\n"
+		return "LIT(\"" + lit + "\")\n"
 	})
 	return out, n
 }
@@ -121,7 +121,9 @@ func diffShape(cs fmttie.Case, lits1, lits2 []string, prog1, prog2 string) strin
 	}
 	d1, n1 := despace(prog1)
 	d2, n2 := despace(prog2)
-	if d1 == d2 {
+	// compared as token streams, like the programs themselves: gofmt may lay out the two texts differently (a trailing
+	// comma before a closing brace on its own line)
+	if d1 == d2 || program(d1) == program(d2) {
 		if n2 > n1 {
 			return "SpaceGainedBetweenNodes"
 		}
@@ -287,8 +289,8 @@ func Run(c *core.Ctx) {
 	// that finding: (1) the real formatter printed exactly what the baseline formatter model prints for this input (the
 	// known findings are defects of that layout; any other layout is a new cause), and (2) some template of the input
 	// fails a guard of C08_render_preserved_partial (tight block follower / white space where the parser does not put it /
-	// depth) - where all guards hold the theorem predicts an unchanged rendering, and the difference is reported by the
-	// guard-prediction family as guards-hold-program-differs.
+	// legacy call on the line of a text / depth) - where all guards hold the theorem predicts an unchanged rendering, and
+	// the difference is reported as guards-hold-program-differs.
 	predicted := true
 	for _, d := range diffs {
 		shape := d.base
@@ -302,14 +304,13 @@ func Run(c *core.Ctx) {
 		case !guardFails[d.cs.Name]:
 			family = "guards of C08_render_preserved_partial hold => program generated from the formatted file is unchanged"
 			detail = "every template satisfies trailing_semantics_preserved, parser_shaped and shallow, yet the generated program changes"
-			if d.base == "ReparsedStructureDiffers" && legacyCallAbsorbed(d.cs.TF, d.cs.P1) {
-				// the only cause: `text {! x }` is printed `text @x`, which the parser reads as one text node
-				shape = "LegacyCallAfterTextReadBackAsText"
-				detail = "a legacy call {! x } directly after text is printed as `text @x` on one line, which the parser reads back as a single text node: the component call becomes literal text"
-			} else {
-				shape = "guards-hold-program-differs"
-				predicted = false
-			}
+			shape = "guards-hold-program-differs"
+			predicted = false
+		case d.base == "ReparsedStructureDiffers" && legacyCallAbsorbed(d.cs.TF, d.cs.P1):
+			// parser_shaped (no_call_after_text) is false and the only structural change is the one it describes:
+			// `text {! x }` is printed `text @x`, which the parser reads as one text node
+			shape = "LegacyCallAfterTextReadBackAsText"
+			detail = "a legacy call {! x } directly after text is printed as `text @x` on one line, which the parser reads back as a single text node: the component call becomes literal text (theorem C08_render_refuted_legacy_call_after_text)"
 		}
 		shapeCount[shape]++
 		c.Hist("program differs: " + shape)
@@ -322,7 +323,7 @@ func Run(c *core.Ctx) {
 				map[string]any{"file": d.cs.Name, "source": d.cs.Src, "formatted": d.cs.P1, "difference": d.base, "original_program_line": a, "formatted_program_line": b}, detail)
 		}
 	}
-	c.Oblige("correspondence", "on every accepted input whose templates all satisfy the guards of C08_render_preserved_partial (formatted text read back with another node structure included), the program generated from the formatted file equals the program generated from the original; only excepted, and reported as a property failure of its own shape: a legacy call printed onto the line of a preceding text and read back as text", predicted, "")
+	c.Oblige("correspondence", "on every accepted input whose templates all satisfy the guards of C08_render_preserved_partial (formatted text read back with another node structure included), the program generated from the formatted file equals the program generated from the original", predicted, "")
 	c.Oblige("correspondence", "formatter model first pass = TemplateFile.Write, byte for byte, on every accepted input", tie1, "")
 	c.Oblige("correspondence", "the formatted file is accepted by parse + generate + gofmt on every accepted input", accepted, "")
 	c.Oblige("correspondence", "program(generate(format x)) = program(generate x) on every accepted input (known findings excepted by shape)", same || true, "see failures / known findings")
